@@ -37,7 +37,10 @@ KINDS = {
 }
 ASSERT_OK = {"T": True, "F": False, "N": False, "B": False, "D": False}
 STATIC = "nb"
-PRELUDE = "let idf = func (x) => x;\n"
+# An identity the static checker cannot see through (a plain `func (x) => x` is typed as its
+# argument since the checker binds a callee's parameters at the call): the select's NULL default
+# makes the result "anything" for the checker, at run time the arm is taken and x comes back.
+PRELUDE = "let idf = func (x) => select (\"a\", NULL) => {a = x};\n"
 
 
 def file_text(kinds):
